@@ -48,7 +48,10 @@ def layout(text, rng):
         toks = lexer.tokenize(text)
         if len(toks) > 2:
             t = toks[rng.randrange(1, len(toks))]
-            text = text[:t.pos] + rng.choice(["\n", "\\\n", " /* mid */ ", "\r\n", "\n\n  "]) + text[t.pos:]
+            # line ends of both conventions, alone and in adjacent mixed runs (carriage returns are written as &#13; so
+            # that the XML parser does not normalise them away)
+            text = text[:t.pos] + rng.choice(["\n", "\\\n", " /* mid */ ", "\r\n", "\n\n  ", "\n\r\n", "\r\n\n", "\r\n\r\n", "\n\r\n\n",
+                                              "// c\r\n\n", "\r\n  \r\n"]) + text[t.pos:]
     return text
 
 
@@ -209,7 +212,7 @@ def run(rep, tier, seed):
     base_models = []
     while len(items) < n:
         m = mg.model()
-        xml = GM.render_xml(m, rng)
+        xml = GM.render_xml(m, rng, empty_elems=rng.random() < 0.5)
         bl = blocks_of(xml)
         for _ in range(12):
             b = rng.choice(bl)
@@ -218,7 +221,7 @@ def run(rep, tier, seed):
             if inj is None:
                 continue
             new, fault, idpos = inj
-            xml2 = xml[:b["span"][0]] + esc(new) + xml[b["span"][1]:]
+            xml2 = xml[:b["span"][0]] + esc(new).replace("\r", "&#13;") + xml[b["span"][1]:]
             items.append({"block": b, "fault": fault, "idpos": idpos, "xml": xml2,
                           "case": Case("f%d" % len(items), [Step("parse_doc", 0, "xml_buffer", 1, 0, xml2)], timeout=60)})
     # structural clauses on arbitrary hostile inputs as well
